@@ -37,13 +37,12 @@ def run(chk):
 
     # long division with a divisor of another width than the dividend (the documentation gives the remainder the
     # divisor's length): algorithm vs definition for all operands of widths {2,4,8} x {2,4,8}, signed and unsigned
+    design_mixed = {}     # sg -> counterexamples of the modelled algorithm (reported together with the code-level result)
     for sg in (1, 0):
         rm = lib.tlc("BitOpsAlg", "MC_BitOpsAlg_divmixed.cfg", env={"MAXW": 8, "SG": sg}, workers=bc.workers(4), timeout=600, coverage=False)
         chk.add_tlc(rm, "design_divmixed_sg%d" % sg)
         if not rm.ok:
-            ex = lib.printed_json(rm, "DIVMIXED")[:3]
-            chk.violation({"level": "design", "op": "div", "mixed_widths": True, "signed": sg, "invariant": rm.violated},
-                          {"examples (unsigned reading of the bit patterns; alg/def = <<quotient, remainder>>)": ex})
+            design_mixed[sg] = lib.printed_json(rm, "DIVMIXED")[:3]
 
     jobs = []
 
@@ -159,6 +158,7 @@ def run(chk):
     chk.note("long_division_of_rank1_bitstrings", {"outcomes": sorted(set(r1)),
              "remark": "operands of shape [w] (no row dimension): the library returns an error; counted as an observation, not judged"})
     bad = [(r, v) for r, v in bad if not (r["id"] in rank1_div and r["out"] == "err")]
+    mixed_code_bad = set()
     for rec, v in bad:
         if rec["op"] == "mux":
             sig = {"op": "mux", "choices": "bit" if rec["st"] == "b" else "integer", "why": v["why"]}
@@ -166,8 +166,20 @@ def run(chk):
             sig = {"op": "div", "signed": rec["sg"], "mixed_widths": True, "why": v["why"]}
         else:
             sig = {"op": rec["op"], "flag": rec["sg"], "w": rec["w"], "k": rec["k"], "why": v["why"]}
-        chk.violation(sig, {"cmd": "ops", "jobs_file": chk.path("jobs_arith.ndjson"), "job_id": rec["id"], "verdict": v, "case": bc.small(rec, v["idx"]),
+        extra = {}
+        if sig.get("mixed_widths") and rec["sg"] in design_mixed:
+            extra = {"design_level (TLC, spec/BitOpsAlg.tla DivMixedInv: modelled algorithm vs definition; alg/def = <<quotient, remainder>>)": design_mixed[rec["sg"]]}
+            mixed_code_bad.add(rec["sg"])
+        chk.violation(sig, {**extra, "cmd": "ops", "jobs_file": chk.path("jobs_arith.ndjson"), "job_id": rec["id"], "verdict": v, "case": bc.small(rec, v["idx"]),
                             "job": {k: (v if not isinstance(v, list) or len(v) <= 24 else "%d values (seed %d)" % (len(v), chk.seed)) for k, v in jobs[rec["id"]].items()}})
+    # the modelled algorithm disagrees with the definition for mixed widths: a finding only together with the code
+    # (the model follows the code; if the code no longer fails, the model of the restoring register is out of date)
+    for sg, ex in design_mixed.items():
+        if sg not in mixed_code_bad:
+            chk.note("design_model_of_mixed_width_division_differs_from_code_sg%d" % sg,
+                     {"examples": ex, "remark": "the code returned the defined results on all mixed-width cases; update DivAlg2 in spec/BitOps.tla"})
+    chk.note("mixed_width_division", {"design_counterexamples": {str(k): v for k, v in design_mixed.items()},
+                                      "code_failing_signedness": sorted(mixed_code_bad)})
     per_op = {}
     for r in recs:
         d = per_op.setdefault(r["op"], {"batches": 0, "elements": 0, "exhaustive_elements": 0, "errors_expected": 0})
